@@ -6,7 +6,14 @@ var sharedDecoderObligations = func(c *Check, rule string) {
 	if p == nil {
 		return
 	}
-	runAsm(c, p, []asmCase{{false, false}, {false, true}}, map[string]string{"result": rule, "offset": rule, "consumed": rule, "blockend": rule, "exit": rule, "nowrap32": rule})
+	// the portable decoder never reads outside its slices (bounds-checked and recovered): an assembly access outside
+	// src, dst or dict is a place where the two can differ, so the access obligations belong here as well; a nil
+	// destination is excluded at the call site (the assembly derives its limits from the pointer)
+	cases := []asmCase{{false, false}, {false, true}}
+	if !dstNonNilAtCallSite(c, p, rule) {
+		cases = append(cases, asmCase{true, false}, asmCase{true, true})
+	}
+	runAsm(c, p, cases, map[string]string{"access": rule, "result": rule, "offset": rule, "consumed": rule, "blockend": rule, "exit": rule, "nowrap32": rule})
 	portableDecoderRules(c, rule)
 }
 
